@@ -21,3 +21,5 @@ func raceRelease(addr any)      {}
 func raceReleaseMerge(addr any) {}
 
 func addrOfAny(a any) unsafe.Pointer { return (*[2]unsafe.Pointer)(unsafe.Pointer(&a))[1] }
+
+func ownershipWrite(p unsafe.Pointer, n uintptr) {}
